@@ -19,6 +19,10 @@ TPrune == /\ IsEvent("prune")
 TVerify == /\ IsEvent("verify")
            /\ bad' = bad \cup Flag(FS!VerifyOK(SeqToSet(Ev.files), Ev.fmt, Ev.repair, SeqToSet(Ev.reported), SeqToSet(Ev.removed)),
                                    "verify reported or removed something other than exactly the invalid chunks of its own format")
+                         \* the command with many workers reporting at once: one line per invalid chunk, and it ends normally
+                         \cup (IF "lines" \in DOMAIN Ev
+                               THEN Flag(Ev.lines = Cardinality(SeqToSet(Ev.reported)) /\ Ev.exit = 0, "desync verify: not exactly one report line per invalid chunk, or the command failed")
+                               ELSE {})
 \* C20: histories of two differently configured clients (and an HTTP handler serving one format) over one directory
 Listing(p) == {[id |-> x.id, fmt |-> x.fmt] : x \in p}
 TFmtReset == /\ IsEvent("fmtreset") /\ present' = {} /\ UNCHANGED bad
